@@ -401,6 +401,12 @@ func (sb *Sandbox) Run(bin string, extraEnv []string, args ...string) *Result {
 		xargs[i] = strings.ReplaceAll(a, "@ROOT@", sb.Root())
 	}
 	cmd := exec.CommandContext(ctx, bin, xargs...)
+	for _, e := range append(append([]string{}, sb.Env...), extraEnv...) {
+		if strings.HasPrefix(e, "VERIF_NOFILE=") {
+			// run under a lowered limit of open files (the limit is part of the environment a command runs in)
+			cmd = exec.CommandContext(ctx, "/bin/sh", append([]string{"-c", "ulimit -n " + strings.TrimPrefix(e, "VERIF_NOFILE=") + "; exec \"$0\" \"$@\"", bin}, xargs...)...)
+		}
+	}
 	cmd.Dir = sb.Root()
 	env := []string{"HOME=" + sb.Home(), "GOMAXPROCS=1", "NO_COLOR=1", "PATH=", "TZ=UTC", "VERIF_NOW=" + fixedNow, "GOTRACEBACK=single"}
 	env = append(env, sb.Env...)
